@@ -87,9 +87,13 @@ func VerifC20_HookUpgradeUninstall() {
 		} else if isCurrent {
 			verifCover("upgrade-current")
 			verifAssert(after == content && err == nil, "the current hook is left alone")
-		} else {
+		} else if !long {
 			verifCover("upgrade-historical")
 			verifAssert(err == nil && after == h.Contents+"\n", "a historical LFS hook is replaced by the current one")
+		} else {
+			// a file longer than 1024 bytes may be refused even if it normalises to a
+			// template (the statement only forbids touching foreign hooks)
+			verifAssert(after == content || after == h.Contents+"\n", "an over-long LFS hook is either left alone or upgraded")
 		}
 		return
 	}
@@ -98,9 +102,11 @@ func VerifC20_HookUpgradeUninstall() {
 	if !isLFS {
 		verifCover("uninstall-foreign")
 		verifAssert(exists && after == content, "a hook git-lfs did not generate survives uninstall unchanged")
-	} else {
+	} else if !long {
 		verifCover("uninstall-lfs")
 		verifAssert(err == nil && !exists, "an LFS hook is removed by uninstall")
+	} else {
+		verifAssert(!exists || after == content, "an over-long LFS hook is either removed or left alone")
 	}
 }
 
